@@ -529,6 +529,7 @@ Proof.
   unfold param_setprop. destruct (pprop_type param_props k) as [t|] eqn:Ep.
   - destruct (str_eqb k k_value) eqn:Ev. { intros H; inversion H; subst; fin Ep. }
     destruct (str_eqb k k_default). { intros H; inversion H; subst; fin Ep. }
+    destruct (str_eqb k k_constant). { intros H; inversion H; subst; fin Ep. }
     destruct (mp_validate t v) as [x|]; [|discriminate].
     destruct (str_eqb k k_readonly). { destruct x; try discriminate; intros H; inversion H; subst; fin Ep. }
     destruct (str_eqb k k_needscfg). { destruct x; try discriminate; intros H; inversion H; subst; fin Ep. }
@@ -721,6 +722,7 @@ Lemma finish_param_ok p y : p_iscmd p = false -> finish_param p = Some y ->
   refit (p_dt p) (p_value p) = Some (p_value y).
 Proof.
   intros Hc. unfold finish_param. rewrite Hc.
+  destruct (finish_constant p) as [[cst ro]|]; [|discriminate].
   destruct (refit (p_dt p) (p_default p)) as [d'|]; [|discriminate].
   destruct (refit (p_dt p) (p_value p)) as [v'|]; [|discriminate].
   intros H; inversion H; subst; simpl. repeat split; try reflexivity; assumption.
@@ -745,12 +747,14 @@ Qed.
 Lemma finish_param_wfunc p y : finish_param p = Some y -> p_wfunc y = p_wfunc p.
 Proof.
   unfold finish_param. destruct (p_iscmd p); [intros H; inversion H; reflexivity|].
+  destruct (finish_constant p) as [[cst ro]|]; [|discriminate].
   destruct (refit (p_dt p) (p_default p)); [|discriminate]. destruct (refit (p_dt p) (p_value p)); [|discriminate].
   intros H; inversion H; reflexivity.
 Qed.
 Lemma finish_param_name p y : finish_param p = Some y -> p_name y = p_name p.
 Proof.
   unfold finish_param. destruct (p_iscmd p); [intros H; inversion H; reflexivity|].
+  destruct (finish_constant p) as [[cst ro]|]; [|discriminate].
   destruct (refit (p_dt p) (p_default p)); [|discriminate]. destruct (refit (p_dt p) (p_value p)); [|discriminate].
   intros H; inversion H; reflexivity.
 Qed.
@@ -1374,6 +1378,7 @@ Qed.
 Lemma finish_param_export p y : p_export p <> XTrue -> finish_param p = Some y -> p_export y = p_export p /\ p_name y = p_name p.
 Proof.
   intros NX. unfold finish_param. destruct (p_iscmd p); [intros H; inversion H; auto|].
+  destruct (finish_constant p) as [[cst ro]|]; [|discriminate].
   destruct (refit (p_dt p) (p_default p)); [|discriminate]. destruct (refit (p_dt p) (p_value p)); [|discriminate].
   intros H; inversion H; subst; simpl. destruct (p_export p); try contradiction; auto.
 Qed.
